@@ -1041,6 +1041,7 @@ class PolarsModel(data_algebra.data_model.DataModel):
                 left_on=op.on_a,
                 right_on=op.on_b,
                 how=how,
+                coalesce=True,  # full joins: rows found only on the right keep their key values
                 suffix="_da_right_tmp",
             )
             if len(coalesce_columns) > 0:
